@@ -226,7 +226,10 @@ def effects(N, syms=None):
     try:
         out = []
         for lid, effs in N.effects.items():
+            own = N.def_ctx.get(lid, (0, ()))[1] or ()
             for node, kind, guards in effs:
+                if guards[:len(own)] == own:
+                    guards = guards[len(own):]      # relative to where the local is declared
                 out.append({"lid": lid, "name": N.defs.get(lid, (None, None, {}))[2].get("name"), "kind": kind, "node": node,
                             "guards": list(N.guards_term(guards))})
         return out
